@@ -3,6 +3,7 @@ package main
 import (
 	"go/token"
 	"go/types"
+	"strings"
 
 	"golang.org/x/tools/go/ssa"
 )
@@ -12,6 +13,28 @@ import (
 func canon(v ssa.Value) ssa.Value {
 	for i := 0; i < 16; i++ {
 		v = strip(v)
+		if phi, isPhi := v.(*ssa.Phi); isPhi {
+			// result merge of an inlined helper: `return zero, err` inputs are not observable on the success path
+			l := phiLive(phi)
+			if len(l) == 1 {
+				v = l[0]
+				continue
+			}
+			// every live input is the same value (several `return x, nil` of an inlined helper)
+			if len(l) > 1 && len(l) < len(phi.Edges) || len(l) > 1 && isResultMerge(phi) {
+				same := true
+				for _, e := range l[1:] {
+					if e != l[0] {
+						same = false
+					}
+				}
+				if same {
+					v = l[0]
+					continue
+				}
+			}
+			return v
+		}
 		u, ok := v.(*ssa.UnOp)
 		if !ok || u.Op != token.MUL {
 			return v
@@ -20,7 +43,14 @@ func canon(v ssa.Value) ssa.Value {
 		if !ok {
 			return v
 		}
-		st := storesTo(al)
+		var st []*ssa.Store
+		for _, x := range storesTo(al) {
+			// `*cell = *cell`: the copy go/ssa emits for a named result before rundefers
+			if l, ok := x.Val.(*ssa.UnOp); ok && l.Op == token.MUL && l.X == ssa.Value(al) {
+				continue
+			}
+			st = append(st, x)
+		}
 		if len(st) != 1 {
 			return v
 		}
@@ -30,6 +60,11 @@ func canon(v ssa.Value) ssa.Value {
 }
 
 func sameValue(a, b ssa.Value) bool { return canon(a) == canon(b) }
+
+// isResultMerge: phi merges the results of an inlined helper (its comment is a result temporary's name).
+func isResultMerge(phi *ssa.Phi) bool {
+	return strings.HasPrefix(phi.Comment, "_i") && strings.Contains(phi.Comment, "_r")
+}
 
 // isGlobalLoad reports whether v is a load of package-level variable pkg.name.
 func isGlobalLoad(v ssa.Value, pkg, name string) bool {
@@ -157,7 +192,7 @@ func unsanitisedReturns(fn *ssa.Function, at ssa.Instruction, src ssa.Value, cut
 			return false
 		}
 		for i, s := range pred.Succs {
-			if s == succ && !cut[Edge{pred, i}] {
+			if s == succ && !cut[Edge{From: pred, Succ: i}] {
 				return true
 			}
 		}
@@ -303,7 +338,7 @@ func origins(v ssa.Value, o originOpts) []Origin {
 		case *ssa.Slice:
 			walk(x.X)
 		case *ssa.Phi:
-			for _, e := range x.Edges {
+			for _, e := range phiLive(x) {
 				walk(e)
 			}
 		case *ssa.Extract:
